@@ -353,6 +353,13 @@ impl Session {
                 break;
             }
 
+            // The session may have been closed while this read was pending: frames that
+            // arrive afterwards must not be acted on (a late SYN would register a stream
+            // that nothing ever tears down).
+            if self.is_closed() {
+                break;
+            }
+
             tracing::debug!(
                 session_id = session_id,
                 "[Session] recv_loop: Read {} bytes, buffer size={} (iteration {})",
